@@ -237,3 +237,61 @@ func c10Stress(maxNonPlain int, fixedImm string) {
 	}
 	nd.Reach("analysis of both packages completed")
 }
+
+const c10SrcG = `package g
+
+import "zzmod/e"
+
+//«g1»
+type T struct{ N int }
+
+//line gram.y:1000
+var X = T{N: 1} //«g2»
+
+//«g7»
+func New() *T {
+	new := func() *T { return nil }
+	_ = new()
+	len := 3
+	_ = len
+	make := func(...int) []T { return nil }
+	_ = make()
+	t := new()
+	t.N = 2 //«g3»
+	//«g4»
+	t.N++
+//line gram.y:5
+	t.N-- //«g5»
+	return t
+}
+
+/*line other.go:7:3*/ var Y = e.E{X: 1} //«g6»
+var Last = T{N: 2}`
+
+var c10GAlts = []string{" @immutable", " @constructor New", " @testonly", " @ignore ALL", " @ignore CTOR01, IMM01", " plain"}
+
+// ZZC10Lines: generated-code shapes — //line directives (line numbers beyond the physical file, a second file name, a
+// /*line*/ form with column), trailing and free-standing comments in their scope, locally shadowed builtins called without
+// arguments (new, make, len), a violation on the last line of a file that does not end in a newline — with readable
+// sources, so that excerpt rendering runs too. ANY spelling in any two of the seven comments.
+func ZZC10Lines() {
+	names := []string{"g1", "g2", "g3", "g4", "g5", "g6", "g7", "y1", "y2"}
+	holes := []nd.Hole{}
+	nonPlain := 0
+	for _, n := range names {
+		v := nd.EnumPad(n, c10GAlts...)
+		holes = append(holes, nd.Hole{Name: n, Value: v})
+		nonPlain += nd.IteInt(nd.HasPrefix(v, " plain"), 0, 1)
+	}
+	holes = append(holes, nd.Hole{Name: "y3", Value: " plain"})
+	nd.Assume(nonPlain <= 2)
+	files := []nd.File{{Pkg: "zzmod/e", Name: "e.go", Src: c10SrcE}, {Pkg: "zzmod/g", Name: "g.go", Src: c10SrcG}}
+	prog := nd.LoadProgram(files, holes)
+	cfg := config.New(nd.Bool("scan_tests"), []string{"testdata"}, []string{})
+	re := AnalyzeSrc(prog, cfg, "zzmod/e", Facts{}, "impl", "imm", "ctor", "tonl", "pkgo")
+	rg := AnalyzeSrc(prog, cfg, "zzmod/g", Facts{"zzmod/e": &re.Ann}, "impl", "imm", "ctor", "tonl", "pkgo")
+	for _, d := range append(re.Diags, rg.Diags...) {
+		nd.Assert(d.Code != "?", "every diagnostic carries a documented code")
+	}
+	nd.Reach("analysis of both packages completed")
+}
